@@ -57,7 +57,8 @@ func (a *Agent) Unwatch(watcher Watcher) bool {
 
 	for i, w := range a.watchers {
 		if w == watcher {
-			a.watchers = append(a.watchers[:i], a.watchers[i+1:]...)
+			// Copy on removal: the hooks call a snapshot of this slice outside the lock.
+			a.watchers = append(a.watchers[:i:i], a.watchers[i+1:]...)
 			return true
 		}
 	}
@@ -228,12 +229,16 @@ func (a *Agent) hooks(proc *process.Process, sym *symbol.Symbol, in *port.InPort
 	inboundHook := packet.HookFunc(func(pck *packet.Packet) {
 		a.mu.Lock()
 
+		// Frames are handed to watchers and to callers of Frames, which read them outside the
+		// lock: a published frame is never modified, it is replaced by an updated copy.
 		var frame *Frame
-		for _, f := range a.frames[proc.ID()] {
+		for i, f := range a.frames[proc.ID()] {
 			if f.Symbol == sym && (f.InPort == in || f.OutPort == out) && f.InPck == nil {
-				f.InPck = pck
-				f.InTime = time.Now()
-				frame = f
+				frame = &Frame{}
+				*frame = *f
+				frame.InPck = pck
+				frame.InTime = time.Now()
+				a.frames[proc.ID()][i] = frame
 				break
 			}
 		}
@@ -260,11 +265,13 @@ func (a *Agent) hooks(proc *process.Process, sym *symbol.Symbol, in *port.InPort
 		a.mu.Lock()
 
 		var frame *Frame
-		for _, f := range a.frames[proc.ID()] {
+		for i, f := range a.frames[proc.ID()] {
 			if f.Symbol == sym && (f.InPort == in || f.OutPort == out) && f.OutPck == nil {
-				f.OutPck = pck
-				f.OutTime = time.Now()
-				frame = f
+				frame = &Frame{}
+				*frame = *f
+				frame.OutPck = pck
+				frame.OutTime = time.Now()
+				a.frames[proc.ID()][i] = frame
 				break
 			}
 		}
